@@ -351,12 +351,25 @@ def run(ctx):
     ctx.assume("inside entity / attribute code, attributes never compared with a constant are taken as present (documented stanza shape); undecidable tests there take a fixed default - they cannot emit routing effects")
     repo = ctx.repo
     routing = load_routing()
+    from .c18 import rule_composition
+    if not rule_composition(ctx, "C06.base"):
+        return
     sim = GroupSim(repo)
     for c in sim.layer_classes:
         repo.consulted.add(c.relpath)
     if not rule_base(ctx, sim):
         return
-    regs = rule_out(ctx, repo, routing, ctx.tier)
-    rule_reply(ctx, repo, regs)
-    rule_in(ctx, repo, routing, ctx.tier)
-    rule_split(ctx, repo)
+    regs = ctx.guarded("C06.out", rule_out, ctx, repo, routing, ctx.tier)
+    ctx.guarded("C06.reply", rule_reply, ctx, repo, regs)
+    # a reply can only reach its callback if the request was registered before it went down (C08.reg) and the entry is
+    # consumed exactly once (C08.pop): adopted, so that a registry change is reported against routing as well
+    from . import c08
+    from ..report import Ctx
+    scratch = Ctx(ctx.repo, "C08", ctx.tier)
+    for r in ("C08.reg", "C08.pop"):
+        scratch.rule(r, "", 0)
+    c08.rule_reg(scratch)
+    c08.rule_pop(scratch)
+    ctx.adopt(scratch, {"C08.reg": "C06.reply", "C08.pop": "C06.reply"})
+    ctx.guarded("C06.in", rule_in, ctx, repo, routing, ctx.tier)
+    ctx.guarded("C06.split", rule_split, ctx, repo)
